@@ -101,7 +101,7 @@ package fastaio
 //@   after send#4: do if hdrs == 2 { gWidth = gLen }; gLen = 0; gScore = 0; gA = 0; gC = 0; gG = 0; gT = 0
 //@   before send#8: assert [lastrecord] fr.Idx == hdrs - 1 && len(fr.Seq) == gLen && fr.Score == gScore && fr.Count_A == gA && fr.Count_C == gC && fr.Count_G == gG && fr.Count_T == gT && forall(j, 0, len(fr.Seq), isCode(fr.Seq[j]))
 //@   ensures [c18.exclusive] len(sent(cErr)) + len(sent(cDone)) == 1
-//@   ensures [strict.count] implies(len(sent(cErr)) == 0, len(sent(chnl)) == hdrs && hdrs >= 1)
+//@   ensures [local.strict.count] implies(len(sent(cErr)) == 0, len(sent(chnl)) == hdrs && hdrs >= 1)
 //@   ensures [idx] forall(t, 0, len(sent(chnl)), sent(chnl)[t].Idx == t)
 //@ # the same specification state machine (hdrs, gLen, gWidth) is the contract of every reader, so they agree with one
 //@ # another: record k has Idx k, its Seq is the table image of the sequence text (per line: encodedLine[j] ==
@@ -130,7 +130,7 @@ package fastaio
 //@   before send#8: assert [lastrecord.len] len(fr.Seq) == gLen
 //@   before send#8: assert [lastrecord.codes] forall(j, 0, len(fr.Seq), isCode(fr.Seq[j]))
 //@   ensures [c18.exclusive] len(sent(cErr)) + len(sent(cDone)) == 1
-//@   ensures [strict.count] implies(len(sent(cErr)) == 0, len(sent(chnl)) == hdrs && hdrs >= 1)
+//@   ensures [local.strict.count] implies(len(sent(cErr)) == 0, len(sent(chnl)) == hdrs && hdrs >= 1)
 //@   ensures [idx] forall(t, 0, len(sent(chnl)), sent(chnl)[t].Idx == t)
 
 //@ func ReadEncodeAlignmentToList
@@ -151,7 +151,8 @@ package fastaio
 //@   before append#1: assert [record] fr.Idx == hdrs - 2 && len(fr.Seq) == gLen && forall(j, 0, len(fr.Seq), isCode(fr.Seq[j]))
 //@   after append#1: do if hdrs == 2 { gWidth = gLen }; gLen = 0
 //@   before append#3: assert [lastrecord] fr.Idx == hdrs - 1 && len(fr.Seq) == gLen && forall(j, 0, len(fr.Seq), isCode(fr.Seq[j]))
-//@   ensures [strict.count] implies(result2 == nil, len(result1) == hdrs && hdrs >= 1)
+//@   ensures [local.strict.count] implies(result2 == nil, len(result1) == hdrs && hdrs >= 1)
+//@   ensures [nonempty] implies(result2 == nil, len(result1) >= 1)
 //@   ensures [idx] implies(result2 == nil, forall(t, 0, len(result1), result1[t].Idx == t && result1[t].Count_A == 0 && result1[t].Count_C == 0 && result1[t].Count_G == 0 && result1[t].Count_T == 0))
 //@   ensures [error.empty] implies(result2 != nil, len(result1) == 0)
 
@@ -170,7 +171,7 @@ package fastaio
 //@   after send#4: do if hdrs == 2 { gWidth = gLen }; gLen = 0
 //@   before send#7: assert [lastrecord] fr.Idx == hdrs - 1 && len(fr.Seq) == gLen
 //@   ensures [c18.exclusive] len(sent(cErr)) + len(sent(cdone)) == 1
-//@   ensures [strict.count] implies(len(sent(cErr)) == 0, len(sent(chnl)) == hdrs && hdrs >= 1)
+//@   ensures [local.strict.count] implies(len(sent(cErr)) == 0, len(sent(chnl)) == hdrs && hdrs >= 1)
 //@   ensures [idx] forall(t, 0, len(sent(chnl)), sent(chnl)[t].Idx == t)
 
 //@ func getAlignmentDims
@@ -179,7 +180,7 @@ package fastaio
 //@   loop 1:
 //@     invariant n == hdrs && l == gLen && hdrs >= 0
 //@   after call:Text#1: do if len(line) > 0 && line[0] == '>' { hdrs++ } else { if hdrs == 1 { gLen += len(line) } }
-//@   ensures implies(result3 == nil, result1 == hdrs && result2 == gLen)
+//@   ensures [local.dims] implies(result3 == nil, result1 == hdrs && result2 == gLen)
 
 //@ # C17/C16: record-level conversions
 //@ func FastaRecord.Encode
